@@ -8,6 +8,7 @@ from __future__ import annotations
 from typing import TYPE_CHECKING, Generator, cast
 
 from exabgp.bgp.message import EOR, Message, Update
+from exabgp.bgp.message.update.collection import UpdateCollection
 from exabgp.environment import getenv
 from exabgp.logger import lazyformat, lazymsg, log
 from exabgp.reactor.peer.handlers.base import MessageHandler
@@ -79,6 +80,12 @@ class UpdateHandler(MessageHandler):
             log.debug(lazymsg('update.received number={number} eor=true', number=self._number), ctx.peer_id)
             return
 
+        if isinstance(message, UpdateCollection):
+            # the placeholder Protocol.read_message returns for an UPDATE nobody asked to decode
+            # (no adj-rib-in, no API consumer): it has no parsed data, and there is nothing to store
+            self._number += 1
+            return
+
         update = cast(Update, message)
         parsed = update.data  # Already parsed by unpack_message
         self._number += 1
@@ -120,6 +127,12 @@ class UpdateHandler(MessageHandler):
             # End-of-RIB marker: TYPE is Update.TYPE but there is no parsed collection, and nothing to store
             self._number += 1
             log.debug(lazymsg('update.received number={number} eor=true', number=self._number), ctx.peer_id)
+            return
+
+        if isinstance(message, UpdateCollection):
+            # the placeholder Protocol.read_message returns for an UPDATE nobody asked to decode
+            # (no adj-rib-in, no API consumer): it has no parsed data, and there is nothing to store
+            self._number += 1
             return
 
         update = cast(Update, message)
